@@ -109,7 +109,7 @@ def eval_doc(args):
 
 
 def run(tier, seed, open_findings):
-    rng = random.Random(seed); n = 1500 if tier == 'thorough' else 400
+    rng = random.Random(seed); n = 15000 if tier == 'thorough' else 400
     docs = []
     while len(docs) < n:
         d = gen(rng, 3, {})
